@@ -200,3 +200,22 @@ package identity
 //@ func GetUserIdentity
 //@   trusted
 //@   modifies nothing
+
+// Commit of an identity (C06): versions are written as objects first, the identity's ref is moved once, last.
+//@ func (*version).Write
+//@   trusted
+//@   modifies repository.mutSeq
+//@   ensures repository.mutSeq >= old(repository.mutSeq)
+//@ func (*Identity).NeedCommit
+//@   trusted
+//@   modifies nothing
+//@ func (*Identity).Commit
+//@   props C06
+//@   requires i != nil && repo != nil
+//@   requires [versions-set] forall k int :: { i.versions[k] } 0 <= k && k < len(i.versions) ==> i.versions[k] != nil
+//@   let refs0 = old(repository.refs)
+//@   ensures [failure-touches-no-ref] result != nil ==> repository.refs == refs0
+//@   ensures [one-ref-set]            result == nil ==> (exists r string :: exists h repository.Hash :: repository.refs == update(refs0, r, h))
+//@   ensures [ref-update-is-last]     result == nil ==> repository.refMutSeq == repository.mutSeq && repository.mutSeq > old(repository.mutSeq)
+//@   loop 1
+//@     invariant repository.refs == refs0 && repository.mutSeq >= old(repository.mutSeq)
